@@ -12,3 +12,13 @@ package listgroups
 //@   layout v1..v2 ThrottleTimeMs int32, ErrorCode int16, Groups []ResponseGroup
 //@ wire ResponseGroup
 //@   layout v0..v2 GroupID string, ProtocolType string
+
+//@ property C17 C19
+
+// ListGroups has no per-entry error slot: when the answer of one broker is missing (its response was cut off, the
+// connection failed) the merged call fails; the loop goes on to the next broker only past a result that is a response.
+//@ func (*Response).Merge
+//@   option noframe
+//@   option only inv-step
+//@   modifies heap
+//@   loop 0 step err == nil
